@@ -319,9 +319,13 @@ def rule_initialiser(ctx: Ctx):
 def rule_policy_and_wiring(ctx: Ctx):
     P = ctx.P
     cp = P.method("TemporalDifferenceLearning", "_create_policy")
+    # (written after seed C10-e) the learner object outlives a training run: nothing it memoises may read state a later run overwrites
+    from .common import cache_on_mutable_state_rule
+    cache_on_mutable_state_rule(ctx, [P.cls("TemporalDifferenceLearning")], "POL-1")
     pol = list(cp.nested.values())
     if not pol:
-        raise AnalysisError("_create_policy: policy closure vanished")
+        ctx.unknown("POL-1", cp, cp.node, "greedy policy closure over the returned table", "the policy is no longer a closure defined in _create_policy")
+        return
     f = pol[0]
     s = f.positional_params[0]
     comps = [c for c in ast.walk(f.node) if isinstance(c, ast.ListComp)]
